@@ -6,6 +6,14 @@
    Definitions only (no proofs); everything is executable.  The theorems are in
    Proofs/RingProofs.v.
 
+   Failure paths.  The consumer (stage 2) may fail at any moment ([Fail2]); it
+   then drains the channel up to the terminator.  The producer (stage 1) may
+   fail in the buffer it is filling: it then sends the terminator WITHOUT
+   sending that buffer ([SendTerm] taken while [filling s = Some k]; the
+   buffer is abandoned).  A stage-1 failure detected right after a send is the
+   ordinary [SendTerm] of a shorter run.  [n_total] is the number of Acquire
+   events of the run, the abandoned one included.
+
    NOTE: the ring size is called [S] as in the design document; the successor
    constructor of [nat] is therefore always written [Datatypes.S] here. *)
 
@@ -43,7 +51,8 @@ Record st := mkst {
   failed    : bool;              (* consumer is in failed / draining mode *)
   ring      : nat -> nat;        (* ring slot -> id of the buffer whose content it holds *)
   consumed  : list nat;          (* ids the consumer has parsed, in order *)
-  n_total   : nat                (* number of buffers this run produces *)
+  n_total   : nat                (* number of buffers this run acquires (= number of
+                                    Acquire events; the last one may be abandoned) *)
 }.
 
 Definition init (n : nat) : st :=
@@ -72,8 +81,15 @@ Definition st_send (k : nat) (s : st) : st :=
      held := held s; waiting := waiting s; finished := finished s; failed := failed s;
      ring := ring s; consumed := consumed s; n_total := n_total s |}.
 
+(* The producer sends the terminator.  If it is still holding a buffer it has
+   acquired and filled but not sent (stage 1 detected an error in that very
+   buffer: findStructuralIndices leaves its loop by "break" between the
+   acquire and the channel send), that buffer is ABANDONED: it is never sent,
+   the producer forgets it ([filling := None]).  The abandoned buffer's
+   Acquire stays in the trace as an ordinary [Acquire] event: its write into
+   the ring slot has happened. *)
 Definition st_sendterm (s : st) : st :=
-  {| produced := produced s; filling := filling s;
+  {| produced := produced s; filling := None;
      term_sent := true; queue := queue s ++ [None];
      held := held s; waiting := waiting s; finished := finished s; failed := failed s;
      ring := ring s; consumed := consumed s; n_total := n_total s |}.
@@ -128,14 +144,14 @@ Definition step (S CAP : nat) (s : st) (e : ev) : option st :=
       | None => None
       end
   | SendTerm =>
-      match filling s with
-      | Some _ => None
-      | None =>
-          if term_sent s then None
-          else if produced s =? n_total s then
-            if length (queue s) <? CAP then Some (st_sendterm s) else None
-          else None
-      end
+      (* enabled after the last Acquire of the run, whether the last buffer
+         has been sent ([filling s = None]: normal end, or stage 1 failed after
+         a send) or is being withheld ([filling s = Some k]: stage 1 failed in
+         buffer k, which is abandoned) *)
+      if term_sent s then None
+      else if produced s =? n_total s then
+        if length (queue s) <? CAP then Some (st_sendterm s) else None
+      else None
   | RecvWait =>
       if waiting s then None
       else if finished s then None
@@ -192,6 +208,16 @@ Definition Safe (S : nat) (s : st) : Prop :=
 
 Definition final (s : st) : bool := term_sent s && finished s.
 
+(* Observations on traces.  The buffers that were SENT are exactly
+   [seq 0 (n_sent evs)]: buffer ids are given out in order and each one is
+   sent before the next is acquired.  A run whose producer abandoned its last
+   buffer has one Acquire more than Sends when the terminator has been sent. *)
+Definition count_ev (e : ev) (evs : list ev) : nat := length (filter (ev_eqb e) evs).
+Definition n_sent (evs : list ev) : nat := count_ev Send evs.
+Definition n_acquired (evs : list ev) : nat := count_ev Acquire evs.
+(* meaningful on traces containing SendTerm (e.g. runs reaching a final state) *)
+Definition producer_abandoned (evs : list ev) : bool := n_sent evs <? n_acquired evs.
+
 Definition is_some {A} (o : option A) : bool :=
   match o with Some _ => true | None => false end.
 
@@ -235,8 +261,13 @@ Fixpoint greedy (S CAP : nat) (prio : list ev) (fuel : nat) (s : st) : list ev :
       end
   end.
 
+(* Send before SendTerm: these two never abandon a buffer *)
 Definition producer_first : list ev := [Acquire; Send; SendTerm; RecvWait; Recv].
 Definition consumer_first : list ev := [RecvWait; Recv; Acquire; Send; SendTerm].
+(* SendTerm before Send: the producer fails in its last buffer (SendTerm is
+   enabled only once all [n_total] buffers are acquired) and abandons it *)
+Definition producer_fails_first : list ev := [Acquire; SendTerm; Send; RecvWait; Recv].
+Definition consumer_first_producer_fails : list ev := [RecvWait; Recv; Acquire; SendTerm; Send].
 
 (* all states visited along a run are safe (executable check) *)
 Fixpoint run_all_safe (S CAP : nat) (s : st) (evs : list ev) : bool :=
@@ -266,10 +297,24 @@ Definition check_run (S CAP n : nat) (evs : list ev) (k : nat) : bool :=
   | None => false
   end.
 
+(* The same for runs that may abandon a buffer: exactly [seq 0 k] was consumed,
+   [sent] buffers were sent, and [ab] says whether the producer abandoned one. *)
+Definition check_run_sent (S CAP n : nat) (evs : list ev) (k sent : nat) (ab : bool) : bool :=
+  check_run S CAP n evs k && Nat.eqb (n_sent evs) sent && Nat.eqb (n_acquired evs) n &&
+  Bool.eqb (producer_abandoned evs) ab.
+
 (* A run in which the consumer fails after [m] greedy steps and then drains. *)
 Definition failing_schedule (S CAP n m : nat) : list ev :=
   let a := firstn m (greedy S CAP producer_first (4 * n + 4) (init n)) in
   match run S CAP (init n) a with
   | Some s1 => a ++ Fail2 :: greedy S CAP producer_first (4 * n + 4) (st_fail s1)
+  | None => []
+  end.
+
+(* The same with an arbitrary priority list before and after the failure. *)
+Definition failing_schedule_prio (S CAP n m : nat) (prio1 prio2 : list ev) : list ev :=
+  let a := firstn m (greedy S CAP prio1 (4 * n + 4) (init n)) in
+  match run S CAP (init n) a with
+  | Some s1 => a ++ Fail2 :: greedy S CAP prio2 (4 * n + 4) (st_fail s1)
   | None => []
   end.
